@@ -462,6 +462,25 @@ def gen_barrier_hang(rng, sid):
     return s
 
 
+def gen_hangup_parked_write(rng, sid):
+    """witness of the defect fixed in /repo (fix: EPOLLERR ignored): a write parked on EAGAIN on a full pipe, then the
+    reader hangs up; the write must fail with EPIPE and report the unwritten remainder"""
+    s = Scn(sid, 2)
+    s.kind = "pipe_w"
+    s.add("fd pipe_w 4096 0")
+    s.add("chan")
+    woff = rng.range(0, 1 << 20)
+    sz = rng.range(5000, 60000)
+    s.op(True, sz, frags=[sz], woff=woff)
+    if rng.chance(1, 2):
+        s.op(True, 100, frags=[100], woff=woff + sz)
+    s.add("sleep 20000")
+    s.add("pc")
+    s.add("drain")
+    s.add("end")
+    return s
+
+
 def gen_zero_after_close(rng, sid):
     """witness of the defect fixed in /repo (fix: zero-length operation scheduled after dispatch_io_close reported 0)"""
     s = Scn(sid, 256)
@@ -481,7 +500,8 @@ def scenarios(ctx):
     rng = ctx.rng
     n = 100 if ctx.tier == "quick" else 600
     out = [gen_ebadf(rng, 100000 + k) for k in range(6)] + [gen_heldleave(rng, 100100 + k) for k in range(3)] + \
-          [gen_barrier_hang(rng, 100200 + k) for k in range(4)] + [gen_zero_after_close(rng, 100300 + k) for k in range(4)]
+          [gen_barrier_hang(rng, 100200 + k) for k in range(4)] + [gen_zero_after_close(rng, 100300 + k) for k in range(4)] + \
+          [gen_hangup_parked_write(rng, 100400 + k) for k in range(2)]
     for i in range(n):
         r = i % 10
         big = (i % 37 == 5)
